@@ -1498,3 +1498,43 @@ structure EngineSt.Restorable (s : EngineSt) (vars0 : List (String × Val)) (src
   applied : ∀ w, s.wm = some w → w.lastApplied = none → w.effective = none
 
 end Varpulis.Ckpt
+
+namespace Varpulis.Ckpt
+
+/-! ## watermark.rs: the step functions of the tracker (for the component-level correspondence) -/
+
+/-- `recompute_effective`: the minimum over the sources that have a watermark; untouched when no
+source has one; `None` when there is no source at all -/
+def WmSt.recompute (w : WmSt) : WmSt :=
+  if w.sources.isEmpty then { w with effective := none }
+  else match w.sources.filterMap (·.2.watermark) with
+    | [] => w
+    | x :: r => { w with effective := some (r.foldl min x) }
+
+/-- `observe_event` (an unknown source registers itself with zero out-of-orderness) -/
+def WmSt.observe (w : WmSt) (src : String) (ts : Int) : WmSt :=
+  let sw : SrcWm := (w.sources.lookup src).getD { watermark := none, maxTs := none, oooMs := 0 }
+  let updated : Bool := match sw.maxTs with
+    | some m => decide (ts > m)
+    | none => true
+  let sw' : SrcWm :=
+    if updated then
+      let nw := ts - sw.oooMs * 1000000
+      { sw with maxTs := some ts,
+                watermark := match sw.watermark with
+                  | some x => if nw > x then some nw else some x
+                  | none => some nw }
+    else sw
+  ({ w with sources := upsert src sw' w.sources }).recompute
+
+/-- `advance_source_watermark` (ignored for an unknown source) -/
+def WmSt.advance (w : WmSt) (src : String) (t : Int) : WmSt :=
+  match w.sources.lookup src with
+  | none => w
+  | some sw =>
+    let sw' : SrcWm := match sw.watermark with
+      | some x => if t > x then { sw with watermark := some t } else sw
+      | none => { sw with watermark := some t }
+    ({ w with sources := upsert src sw' w.sources }).recompute
+
+end Varpulis.Ckpt
